@@ -5,14 +5,16 @@ from ..rules import timeouts as T
 from ..rules import scenario as SC
 
 EXPLANATION = (
-    "Static analysis. Decides on the worker's CFG that a timeout exit is only possible through a successful NON-blocking "
-    "probe of the processes management lock (failed probe => back to waiting), never with a task in hand, and that every "
-    "clean exit announces its pid before waiting on its exit lock (R-TIMEOUT-EXIT); that the manager's pid branch removes "
-    "under the lock -> releases that worker's exit lock -> joins, and never flags broken (R-EXIT-HANDSHAKE); that the "
-    "respawn guard, evaluated as a decision table over (pending, running, workers), is true on every row with pending>0 "
-    "and no worker left, its inner condition equals 'pool below max_workers', and the spawn is under the lock "
-    "(R-RESPAWN-GUARD, R-SPAWN-LOCKED); plus R-NULLED/R-MGR-SELF (known finding D4; D3 repaired in /repo: respawn after "
-    "shutdown(wait=False) / executor GC). Not decided: the outcome of each individual race; the UserWarning."
+    "Static analysis. Decides on the worker's CFG that a timeout exit is only possible through a successful "
+    'NON-blocking probe of the processes management lock (failed probe => back to waiting), never with a task in '
+    'hand, and that every clean exit announces its pid before waiting on its exit lock (R-TIMEOUT-EXIT); that the '
+    "manager's pid branch removes under the lock -> releases that worker's exit lock -> joins, and never flags broken "
+    '(R-EXIT-HANDSHAKE); that the respawn guard, evaluated as a decision table over (pending, running, workers), is '
+    "true on every row with pending>0 and no worker left, its inner condition equals 'pool below max_workers', and "
+    'the spawn is under the lock (R-RESPAWN-GUARD, R-SPAWN-LOCKED); plus R-NULLED/R-MGR-SELF (known finding D4; D3 '
+    'repaired in /repo: respawn after shutdown(wait=False) / executor GC). Also decided: after every exit '
+    'announcement the worker stops the executors nested in it before returning (R-EXIT-NESTED). Not decided: the '
+    'outcome of each individual race; the UserWarning.'
 )
 
 
